@@ -156,12 +156,12 @@ def one_point(cx, api, size, injector, point, preexisting, old, ref_new, ref_pla
 
 
 def enumerate_faults(cx, tier):
-    apis = ["xlsx", "xlsx_light", "csv", "password"]
+    apis = ["xlsx", "xlsx_light", "csv", "password"] + (["password_light"] if tier == "thorough" else [])
     sizes = ["tiny", "small", "edge", "large"]
     jobs = []
     for api in apis:
         for size in sizes:
-            if api == "password" and size == "large" and tier == "quick":
+            if api.startswith("password") and size == "large" and tier == "quick":
                 continue
             old, new, plain = reference(cx, api, size)
             n = len(new)
@@ -174,7 +174,7 @@ def enumerate_faults(cx, tier):
                 while len(pts) < budget and len(pts) < n:
                     pts.add(cx.rng.randrange(0, n + 1))
                 offsets = sorted(p for p in pts if 0 <= p <= n + 1)
-            if api == "password":
+            if api.startswith("password"):
                 offsets = offsets[::3] if tier == "quick" else offsets[::2]
             for i, k in enumerate(offsets):
                 jobs.append((api, size, "fsize", k, (i % 2 == 0), old, new, plain))
